@@ -204,6 +204,10 @@ fn handle(job: &Value, scratch: &PathBuf) -> Value {
     if wants(job, "syms") {
         res["syms"] = json!(line_symbols(&out_text));
     }
+    if wants(job, "lines") {
+        res["lines"] = line_records(&out_text);
+        res["ws"] = ws_summary(&out_text);
+    }
     if wants(job, "lex") {
         res["lex_in"] = lex_summary(&src);
         res["lex_out"] = lex_summary(&out_text);
@@ -280,4 +284,184 @@ fn lex_summary(text: &str) -> Value {
         }
     }
     json!({"comments": comments, "n_tokens": n_tokens})
+}
+
+
+/// Whole-text facts for spec/WhitespaceObs.tla.
+fn ws_summary(text: &str) -> Value {
+    let b = text.as_bytes();
+    let lf = b.iter().filter(|c| **c == b'\n').count();
+    let crlf = b.windows(2).filter(|w| w == b"\r\n").count();
+    let trimmed = text.trim_end_matches(|c| c == '\n' || c == '\r');
+    let tail = &text[trimmed.len()..];
+    let final_nl = tail.matches('\n').count();
+    let first_line = text.split('\n').next().unwrap_or("");
+    json!({
+        "lf": lf, "crlf": crlf, "final_nl": final_nl,
+        "nonempty": !text.trim().is_empty(),
+        "lead_blank": !text.is_empty() && first_line.trim().is_empty() && text.contains('\n'),
+    })
+}
+
+/// Per-line records for spec/WhitespaceObs.tla (rustc_lexer classification).
+fn line_records(text: &str) -> Value {
+    use rustc_lexer::TokenKind as T;
+    // per byte: class ('x' code, 'k' comment, 'q' string), exempt flag, depth before the byte
+    let n = text.len();
+    let mut class = vec![b'x'; n];
+    let mut exempt = vec![false; n];
+    let mut depth_at = vec![0i32; n + 1];
+    let mut toks: Vec<(T, usize, usize)> = vec![];
+    let mut pos = 0usize;
+    for tok in rustc_lexer::tokenize(text) {
+        toks.push((tok.kind, pos, pos + tok.len as usize));
+        pos += tok.len as usize;
+    }
+    let mut depth = 0i32;
+    // macro regions and skip regions over the significant tokens
+    let sig: Vec<usize> = (0..toks.len())
+        .filter(|&i| !matches!(toks[i].0, T::Whitespace | T::LineComment { .. } | T::BlockComment { .. }))
+        .collect();
+    let mut macro_until: Option<i32> = None; // exempt until depth drops back to this value
+    let mut skip_until: Option<(i32, bool)> = None; // (depth of the attribute, inner)
+    let mut si = 0usize;
+    for (ti, &(kind, lo, hi)) in toks.iter().enumerate() {
+        let is_sig = si < sig.len() && sig[si] == ti;
+        for b in lo..hi {
+            depth_at[b] = depth;
+            class[b] = match kind {
+                T::LineComment { .. } | T::BlockComment { .. } => b'k',
+                T::Literal { kind, .. } => match kind {
+                    rustc_lexer::LiteralKind::Str { .. }
+                    | rustc_lexer::LiteralKind::ByteStr { .. }
+                    | rustc_lexer::LiteralKind::CStr { .. }
+                    | rustc_lexer::LiteralKind::RawStr { .. }
+                    | rustc_lexer::LiteralKind::RawByteStr { .. }
+                    | rustc_lexer::LiteralKind::RawCStr { .. } => b'q',
+                    _ => b'x',
+                },
+                _ => b'x',
+            };
+            exempt[b] = macro_until.is_some() || skip_until.is_some();
+        }
+        if !is_sig {
+            continue;
+        }
+        let s = &text[lo..hi];
+        // `name ! (` / `name ! name {` starts a macro region
+        if macro_until.is_none() && matches!(kind, T::Bang) && si > 0 && si + 1 < sig.len() {
+            let prev = toks[sig[si - 1]].0;
+            let mut nx = si + 1;
+            if matches!(toks[sig[nx]].0, T::Ident) && nx + 1 < sig.len() {
+                nx += 1;
+            }
+            if matches!(prev, T::Ident)
+                && matches!(toks[sig[nx]].0, T::OpenParen | T::OpenBrace | T::OpenBracket)
+            {
+                macro_until = Some(depth);
+            }
+        }
+        // an attribute mentioning rustfmt skip
+        if matches!(kind, T::Pound) && skip_until.is_none() {
+            let inner = si + 1 < sig.len() && matches!(toks[sig[si + 1]].0, T::Bang);
+            let mut j = si + 1;
+            let mut d = 0;
+            let mut textual = String::new();
+            while j < sig.len() {
+                let (k, a, b) = toks[sig[j]];
+                textual.push_str(&text[a..b]);
+                match k {
+                    T::OpenBracket => d += 1,
+                    T::CloseBracket => {
+                        d -= 1;
+                        if d == 0 {
+                            break;
+                        }
+                    }
+                    _ => {}
+                }
+                j += 1;
+            }
+            if textual.contains("rustfmt") && textual.contains("skip") {
+                skip_until = Some((depth, inner));
+                for b in lo..hi {
+                    exempt[b] = true;
+                }
+            }
+        }
+        match kind {
+            T::OpenParen | T::OpenBrace | T::OpenBracket => depth += 1,
+            T::CloseParen | T::CloseBrace | T::CloseBracket => {
+                depth -= 1;
+                if let Some(d) = macro_until {
+                    if depth <= d {
+                        macro_until = None;
+                    }
+                }
+                if let Some((d, inner)) = skip_until {
+                    if (!inner && depth == d && matches!(kind, T::CloseBrace)) || depth < d {
+                        skip_until = None;
+                    }
+                }
+            }
+            T::Semi => {
+                if let Some((d, inner)) = skip_until {
+                    if !inner && depth == d {
+                        skip_until = None;
+                    }
+                }
+                if let Some(d) = macro_until {
+                    if depth <= d {
+                        macro_until = None;
+                    }
+                }
+            }
+            T::Comma => {
+                if let Some((d, inner)) = skip_until {
+                    if !inner && depth == d {
+                        skip_until = None;
+                    }
+                }
+            }
+            _ => {}
+        }
+        let _ = s;
+        si += 1;
+    }
+    depth_at[n] = depth;
+    let mut out = vec![];
+    let mut start = 0usize;
+    let bytes = text.as_bytes();
+    while start < n {
+        let end = bytes[start..].iter().position(|c| *c == b'\n').map(|p| start + p).unwrap_or(n);
+        let line = &text[start..end];
+        let line = line.strip_suffix('\r').unwrap_or(line);
+        let mut lead = vec![];
+        let mut cls = "blank";
+        let mut any_exempt = false;
+        let starts_other = class[start] != b'x' && start > 0 && class[start - 1] == class[start]
+            && bytes[start - 1] == b'\n';
+        for (off, c) in line.char_indices() {
+            let b = start + off;
+            any_exempt |= exempt[b];
+            if cls == "blank" {
+                if c == ' ' || c == '\t' {
+                    if class[b] == b'x' {
+                        lead.push(if c == '\t' { "t" } else { "s" });
+                    } else {
+                        cls = "other";
+                    }
+                } else {
+                    cls = if class[b] == b'x' { "code" } else { "other" };
+                }
+            }
+        }
+        if starts_other {
+            cls = "other";
+        }
+        out.push(json!({"lead": lead, "cls": cls, "depth": depth_at[start].max(0),
+                        "exempt": any_exempt || (line.is_empty() && start < n && exempt[start.min(n - 1)])}));
+        start = end + 1;
+    }
+    json!(out)
 }
